@@ -232,8 +232,10 @@ def check_law(case):
     x = c02.build(obj)
     dis = []
     ref = reference_length(obj)
+    big = "unit" in case and not case["unit"].startswith("1/")
     if ref is not None and ref[1] <= 1e-11 * max(1.0, ref[0]):
-        for e in (1e-4, 1e-6, 1e-9):
+        # (at coordinates of 1e4..1e5 the 1e-9 setting is below what the chord sums can resolve in reasonable time)
+        for e in ((1e-4, 1e-6) if big else (1e-4, 1e-6, 1e-9)):
             try:
                 Le = x.length(error=e)
             except engine.CaseTimeout:
@@ -248,14 +250,14 @@ def check_law(case):
                             # the error of a chord-sum that stops refining each piece at `e` grows like L (e/L)^(2/3)
                             "error_over_L_e23": (err / ref[0]) / ((e / ref[0]) ** (2.0 / 3.0)),
                             "detail": "length(error=%g) of %s = %r, the integral of the speed is %r (off by %.3g)" % (e, obj, Le, ref[0], err)})
-    e = 1e-7
+    e = 1e-4 if big else 1e-7
     try:
         L = x.length(error=e)
     except engine.CaseTimeout:
         raise
     except Exception as ex:
         return [{"clause": "Raises", "detail": "length of %s raised %s" % (obj, type(ex).__name__)}]
-    tol = 4e-6 * max(1.0, L)
+    tol = (4e-6 if not big else 4e-7) * max(1.0, L)
     for name, m, f in (("rotate 90", svg.Matrix(0, 1, -1, 0, 0, 0), 1.0), ("reflect x", svg.Matrix(-1, 0, 0, 1, 0, 0), 1.0), ("reflect diag", svg.Matrix(0, 1, 1, 0, 0, 0), 1.0),
                        ("translate", svg.Matrix(1, 0, 0, 1, -77, 31), 1.0), ("rotate atan(4/3)", svg.Matrix(0.6, 0.8, -0.8, 0.6, 0, 0), 1.0),
                        ("rotate+translate", svg.Matrix(-0.8, 0.6, -0.6, -0.8, 12, 9), 1.0), ("scale 3", svg.Matrix.scale(3), 3.0), ("scale -1/4", svg.Matrix.scale(-0.25), 0.25)):
@@ -310,9 +312,18 @@ def cases_from_dump(path):
         yield {"kind": st["kind"], "arg": st["arg"], "exp": st["exp"], "hist": st["hist"]}
 
 
-def law_cases(path):
+ID6 = [[1, 1], [0, 1], [0, 1], [1, 1], [0, 1], [0, 1]]
+
+
+def law_cases(path, seed=0):
+    n = 0
     for st in engine.read_dump(path):
+        n += 1
         yield {"kind": "law", "obj": st["obj"]}
+        # the same segment at another coordinate magnitude (the property quantifies over 1e-3 .. 1e5)
+        u = [(100000, 1), (12345, 1), (1, 1000)][(n + seed) % 3]
+        sc = c02.scaled({"obj": st["obj"], "img": st["obj"], "hist": [], "acc": ID6}, u)
+        yield {"kind": "law", "obj": sc["obj"], "unit": sc["unit"]}
 
 
 def run(tier, seed):
@@ -325,7 +336,7 @@ def run(tier, seed):
         res2 = engine.run_tlc(work, "MC_C02", constants={"Full": "FALSE" if tier == "quick" else "TRUE", "MaxMul": 0}, invariants=["Compose"])
         run.add_tlc(res2, "segment table for the invariance laws")
         n = 0
-        cases = list(cases_from_dump(res["dump"])) + list(law_cases(res2["dump"]))
+        cases = list(cases_from_dump(res["dump"])) + list(law_cases(res2["dump"], seed))
         # beyond the exhaustive bound: query/edit histories of 5..9 operations
         sres, vals = engine.simulate_cases(work, "MC_C15", {"V": 4, "MaxOps": 9}, num=(3 if tier == "quick" else 100), depth=11,
                                            seed=seed + 1, init="InitHist")
